@@ -2,6 +2,7 @@
 package props
 
 import (
+	"runtime"
 	"fmt"
 	"os"
 	"strings"
@@ -106,3 +107,16 @@ func topFrame(stack string) string {
 	}
 	return "unknown"
 }
+
+
+// totalAlloc is the number of bytes the process has allocated so far (monotonic).
+func totalAlloc() uint64 {
+	var ms runtime.MemStats
+	runtime.ReadMemStats(&ms)
+	return ms.TotalAlloc
+}
+
+// allocBudget is what decoding n bytes received from the network may allocate before it counts as an
+// allocation bomb: lengths declared inside the data must be checked against the data before memory is
+// reserved for them (the alternative is a process that a 24-byte frame can push out of memory).
+func allocBudget(n int) uint64 { return 256<<20 + 128*uint64(n) }
